@@ -219,6 +219,25 @@ pub fn check(s: &'static dyn Proto, c: &Case, st: &mut Stats, _k: &KnownFindings
             }
         }
     }
+    // another server yields a different export key even when the client replays the very same
+    // randomness (same password, user, identities and client tapes at both servers)
+    {
+        let cred = b"user-0".to_vec();
+        let pwb = &pws[0];
+        let mut eks: Vec<Vec<u8>> = Vec::new();
+        let mut uploads: Vec<Vec<u8>> = Vec::new();
+        for setup in &setups {
+            let (req, cst) = s.client_reg_start(&mut t(900).rng(), pwb).map_err(|x| e("client reg start", x))?;
+            let resp = s.server_reg_start(setup, &req, &cred).map_err(|x| e("server reg start", x))?;
+            let fin = s.client_reg_finish(cst, &mut t(901).rng(), pwb, &resp, ids, None).map_err(|x| e("client reg finish", x))?;
+            uploads.push(s.ser(Codec::Native, &fin.upload));
+            eks.push(fin.export_key);
+        }
+        ensure!(eks[0] != eks[1], "the same registration (same client tapes) at two unrelated servers returns the same export key");
+        let mk = |u: &Vec<u8>| crate::fieldmap::slice(&m, Ty::RegUpload, "masking_key", u).to_vec();
+        ensure!(mk(&uploads[0]) != mk(&uploads[1]), "the same registration at two unrelated servers yields the same masking key");
+        st.eval(2);
+    }
     // separation: export keys of distinct registrations pairwise different, and different from every session key
     for i in 0..export_keys.len() {
         for j in 0..i {
@@ -280,7 +299,7 @@ pub const BUDGET: Budget = Budget {
 pub fn run(cfg: &RunCfg) -> (Outcome, EvidenceExtra) {
     let out = run_property(cfg, "C16", crate::suites::suites20(), BUDGET, |s| strategy(cfg, s), check);
     let ev = EvidenceExtra {
-        rule: "case = history (3..10 ops, thorough 3..14) over {register/re-register(server, user, password), login(server, user, context, right/wrong password)} for 3 users, 3 passwords, 2 servers, interpreted against a model map (server,user) -> current registration. Oracle: every login with a matching registration succeeds and returns exactly the export key of the user's CURRENT registration (whatever context, tape or earlier logins), all others fail; export keys of distinct registrations (incl. same password re-registration, other user, other server) are pairwise different and differ from every session key; session keys pairwise different; no export key, session key or password of >= 16 bytes with >= 8 distinct byte values occurs as a substring of any registration/login message or password file (native and bincode image) of the history. evaluation = one op or one (secret, message) scan; non-trivial = histories with a re-registration and >= 2 successful logins of one user; distinct by hash".into(),
+        rule: "case = history (3..10 ops, thorough 3..14) over {register/re-register(server, user, password), login(server, user, context, right/wrong password)} for 3 users, 3 passwords, 2 servers, interpreted against a model map (server,user) -> current registration. Oracle: every login with a matching registration succeeds and returns exactly the export key of the user's CURRENT registration (whatever context, tape or earlier logins), all others fail; export keys of distinct registrations (incl. same password re-registration, other user, other server) are pairwise different and differ from every session key; session keys pairwise different; the same registration replayed with identical client tapes at the two servers gives different export and masking keys; no export key, session key or password of >= 16 bytes with >= 8 distinct byte values occurs as a substring of any registration/login message or password file (native and bincode image) of the history. evaluation = one op or one (secret, message) scan; non-trivial = histories with a re-registration and >= 2 successful logins of one user; distinct by hash".into(),
         assumptions: vec!["coincidental 16-byte substring matches are treated as impossible".into()],
         exhaustive: None,
         extra: Default::default(),
